@@ -135,7 +135,7 @@ func checkC13(w *World, r *Report) {
 			}
 			key := fmt.Sprintf("store:%s[...]@%s#%d", tbl.Name(), ssaFuncKey(fn), ord)
 			ord++
-			r.Check(region[stt], "R13.1", key, w.Pos(stt.Pos()), "slot written while usersLock is held",
+			r.Check(region[stt] || heldWithCallers(w, stt, isLock, 0), "R13.1", key, w.Pos(stt.Pos()), "slot written while usersLock is held (here or in every caller)",
 				"a session table slot is written without usersLock: two handshakes can be given the same identifier or a slot can be half-updated")
 			// R13.3: clearing stores
 			if !isConstNil(stt.Val) {
@@ -221,6 +221,14 @@ func checkC13(w *World, r *Report) {
 		}
 		if vcall == nil {
 			continue
+		}
+		// re-validation of a session the caller already holds (validateAndGetUser(x.UserId, x.remoteAddress) of
+		// one and the same object) is not a request handler: nothing in it comes from a message
+		if len(vcall.Call.Args) == 3 {
+			a1, a2 := asFieldAddr(vcall.Call.Args[1]), asFieldAddr(vcall.Call.Args[2])
+			if a1 != nil && a2 != nil && a1.X == a2.X && fieldVarOf(a1) != nil && fieldVarOf(a1).Name() == "UserId" {
+				continue
+			}
 		}
 		key := "handler:" + ssaFuncKey(fn)
 		var user, errv ssa.Value
@@ -358,7 +366,7 @@ func checkC13(w *World, r *Report) {
 					naddr++
 				}
 			}
-			if naddr < 2 {
+			if naddr < 1 {
 				return false, false
 			}
 			if helperOK[callee] == 0 {
@@ -524,5 +532,96 @@ func c13IdentityGuard(w *World, fn *ssa.Function, st *ssa.Store, x ssa.Value, li
 			return true
 		}
 	}
-	return false
+	// the test may be made by the caller: fn clears the slot of its parameter, and every call of fn is on the
+	// true edge of a pointer-identity test (direct, or a bool helper that answers true only under it)
+	prm, isParam := x.(*ssa.Parameter)
+	if !isParam {
+		for _, root := range provenance(x, provOpts{}) {
+			if p2, ok := root.(*ssa.Parameter); ok {
+				prm, isParam = p2, true
+			}
+		}
+	}
+	if !isParam || prm.Parent() != fn {
+		return false
+	}
+	pidx := -1
+	for i, q := range fn.Params {
+		if q == prm {
+			pidx = i
+		}
+	}
+	identityHelper := func(h *ssa.Function, argIdx int) bool {
+		if h == nil || len(h.Blocks) == 0 || argIdx >= len(h.Params) || h.Signature.Results().Len() != 1 {
+			return false
+		}
+		hp := h.Params[argIdx]
+		isIdent := func(v ssa.Value) bool {
+			bo, ok := v.(*ssa.BinOp)
+			if !ok || bo.Op != token.EQL {
+				return false
+			}
+			same := func(y ssa.Value) bool { return y == ssa.Value(hp) }
+			return (isOccupant(bo.X) && same(bo.Y)) || (isOccupant(bo.Y) && same(bo.X))
+		}
+		okAll, n := true, 0
+		enumPaths(h, nil, nil, nil, func(e pathExit) {
+			ret, isRet := e.Last.(*ssa.Return)
+			if !isRet {
+				return
+			}
+			n++
+			rv := e.State.Resolve(ret.Results[0])
+			if b, isC := constBool(rv); isC && !b {
+				return
+			}
+			if t, known := e.State.Truth(rv); known && !t {
+				return
+			}
+			if isIdent(rv) {
+				return
+			}
+			for fv, t := range e.State.Facts {
+				if isIdent(fv) && t {
+					return
+				}
+			}
+			okAll = false
+		})
+		return okAll && n > 0
+	}
+	ncall, all := 0, true
+	for caller := range allModuleFuncs(w, w.SSA()) {
+		for _, c := range callsIn(caller) {
+			if c.Common().StaticCallee() != fn || pidx < 0 || pidx >= len(c.Common().Args) {
+				continue
+			}
+			ncall++
+			arg := c.Common().Args[pidx]
+			guarded := false
+			for _, b := range caller.Blocks {
+				if len(b.Instrs) == 0 {
+					continue
+				}
+				ifi, ok := b.Instrs[len(b.Instrs)-1].(*ssa.If)
+				if !ok {
+					continue
+				}
+				ci, _ := c.(ssa.Instruction)
+				if hc, ok := ifi.Cond.(*ssa.Call); ok && edgeDominates(b, 0, ci.Block()) {
+					if h := hc.Call.StaticCallee(); h != nil && inModule(h) {
+						for ai, a := range hc.Call.Args {
+							if a == arg && identityHelper(h, ai) {
+								guarded = true
+							}
+						}
+					}
+				}
+			}
+			if !guarded {
+				all = false
+			}
+		}
+	}
+	return ncall > 0 && all
 }
